@@ -20,7 +20,8 @@ MIN_COUNTERS = dict(quick={'misuse_calls': 1300, 'kind:complex_step_on_complex_i
                     thorough={'misuse_calls': 4000})
 EXHAUSTIVE = dict(quick=True, thorough=False)
 EXHAUSTIVE_NOTE = 'the finite misuse matrix is enumerated completely in both tiers; thorough adds random shape/size draws'
-RULE = ('finite matrix: {Derivative, Gradient, Jacobian, Hessdiag, Hessian} x {complex, multicomplex} x {complex x, '
+RULE = ('A random part varies the magnitude (1e-28..1e8) of the complex part of f and of x. ' 
+        'finite matrix: {Derivative, Gradient, Jacobian, Hessdiag, Hessian} x {complex, multicomplex} x {complex x, '
         'complex-valued f, both} x dimension 1..4 x (n, order) x full_output; multicomplex n in 3..6; num_steps below the rule length '
         'with check_num_steps=False; functions returning fewer or non-broadcastable values; directionaldiff size '
         'mismatch; fd_weights/fd_weights_all with n >= len(x); fd_derivative with len(fx) != len(x), n >= len(x) and '
